@@ -382,6 +382,8 @@ def resolve(world, op):
                     v = (resolve_vs({"lim": 0}, srun.get(sidx, 0.0), ss["min"], ss["max"], "remove", g)) / n + vs["over"]
         else:
             v = resolve_vs(vs, 0, 0, 0, "remove", g)
+        if g and math.isfinite(v):
+            v = quantize(v + 1e-9, g)  # R records print the volume unrounded: stay on the grid
         return {"op": "distribute", "src": si, "col": col, "dst": di, "dw": cd, "dflat": dflat, "vol": v, "label": op.get("label") or "", "kw": dict(op.get("kw") or {})}
     if kind in ("evo_aspirate", "evo_dispense"):
         i = op["lw"] % len(specs)
